@@ -296,7 +296,7 @@ def problems(case):
         else:
             f = {"tool": case["tool"], "shape": "", "error_class": c["class"], "detail": c.get("detail", ""),
                  "where": c.get("where", "")}
-            if f["error_class"] in ("missing_method", "wrong_method_signature"):
+            if f["error_class"] in ("missing_method", "wrong_method_signature", "undefined_member"):
                 f["where"] = ""  # the same missing method is reported by every use site
             if f["error_class"] == "other":
                 f["detail"] = re.sub(r"\b[A-Z]\w*\b", "_", f["detail"])[:120]
